@@ -110,6 +110,39 @@ pub fn inner(args: &[String]) -> i32 {
                 }
             }
         }
+        "alloc" => {
+            // the crate's public aligned buffer: every request size around the block
+            // boundaries, every length the buffer itself admits, written and read in full
+            if chunk == 0 && start == 0 {
+                use feoxdb::utils::allocator::AlignedBuffer;
+                say("START 0 alloc:aligned-buffer".to_string());
+                let mut n_ops = 0u64;
+                let mut sizes: Vec<usize> = vec![1, 2, 23, 100, 511, 512, 513];
+                for b in 1..=4usize {
+                    sizes.extend([b * 4096 - 1, b * 4096, b * 4096 + 1]);
+                }
+                sizes.push(12345);
+                let n_sizes = sizes.len() as u64;
+                for n in sizes {
+                    let Ok(mut buf) = AlignedBuffer::new(n) else { continue };
+                    let cap = buf.capacity();
+                    for len in [0usize, 1, n.min(cap), cap.saturating_sub(1), cap] {
+                        buf.set_len(len);
+                        buf.as_mut_slice().fill(0xA5);
+                        let sum: u64 = buf.as_slice().iter().map(|b| *b as u64).sum();
+                        if sum != 0xA5 * len as u64 {
+                            say(format!("VIOL C20 alloc AlignedBuffer::new({n}) with len {len}: the slice does not read back what was written"));
+                        }
+                        n_ops += 1;
+                    }
+                    buf.clear();
+                    let keep: Vec<AlignedBuffer> = (0..3).filter_map(|_| AlignedBuffer::new(n).ok()).collect();
+                    drop(keep);
+                    drop(buf);
+                }
+                say(format!("DONE 0 {n_ops} {n_sizes}"));
+            }
+        }
         "free" => {
             let mut i = 0;
             for f in FAMILIES {
@@ -166,7 +199,7 @@ pub fn check(tier: &str, budget_s: f64, report: &mut Report) {
     }
     let threads = crate::util::worker_threads();
     let bound = if thorough { 2 } else { 1 };
-    let mut fams: Vec<(&str, f64)> = vec![("c07mem", 0.12), ("c07disk", 0.12), ("c08", 0.22), ("scan", 0.14), ("contend", 0.06), ("sweep", 0.08), ("wb", 0.06), ("seq", 0.1), ("fault", 0.04), ("free", 0.06)];
+    let mut fams: Vec<(&str, f64)> = vec![("c07mem", 0.12), ("c07disk", 0.12), ("c08", 0.22), ("scan", 0.14), ("contend", 0.06), ("sweep", 0.08), ("wb", 0.06), ("seq", 0.1), ("fault", 0.04), ("alloc", 0.01), ("free", 0.05)];
     if !thorough {
         fams.retain(|f| f.0 != "wb");
     }
@@ -174,7 +207,7 @@ pub fn check(tier: &str, budget_s: f64, report: &mut Report) {
     let stop = AtomicBool::new(false);
     for (fam, share) in fams {
         let budget = budget_s * share;
-        let nchunks = if fam == "fault" { 1 } else { threads };
+        let nchunks = if fam == "fault" || fam == "alloc" { 1 } else { threads };
         let totals: Mutex<(u64, u64, u64, u64)> = Mutex::new((0, 0, 0, 0)); // programs done, executions, distinct, crashes
         let viols: Mutex<Vec<(String, String)>> = Mutex::new(Vec::new());
         std::thread::scope(|sc| {
